@@ -67,24 +67,25 @@ Theorem C11_reassembly_in_order :
   forall (b : body T) (cuts : list Z), increasing 0 cuts -> assemble C (slices b 0 cuts) = b.
 Proof. exact @reassembly_in_order. Qed.
 
-(* Convergence (timer = abstract tick; one round = both retransmit ticks fire, then everything emitted
-   since is delivered once in order; computed on the symbolic instance):
-   every single lost datagram except the server's Finished is repaired by ONE retransmission round *)
+(* Convergence (partial: the timer is an abstract tick; one round = both retransmit ticks fire, then
+   everything emitted since is delivered once in order; computed on the symbolic instance).
+   Every single lost datagram of the ten is repaired by ONE retransmission round -- this includes the
+   ClientKeyExchange (fix c3f15a2) and the server's Finished (fix 1decd50, formerly F19). *)
 Theorem C11_convergence_single_loss :
   forallb (fun i => both_agree (round sym (lose_client i))) (seq 0 4) = true /\
-  forallb (fun i => both_agree (round sym (lose_server i))) (seq 0 5) = true.
+  forallb (fun i => both_agree (round sym (lose_server i))) (seq 0 6) = true.
 Proof. exact single_loss_recovers. Qed.
 
-(* REFUTED (finding F19, open): the datagram with the server's Finished is lost.  The server is Connected
-   and never retransmits; after every number of rounds up to the deadline (30 = 30 s / 1 s) the pair is
-   (Handshaking, Connected); then the deadline fails the client and the server stays Connected. *)
-Theorem C11_convergence_refuted_lost_server_finished :
-  forallb (fun n => let '(a, b) := pair_codes (rounds sym n (lose_server 5)) in (a =? 1) && (b =? 2))
-          (seq 0 (S max_rounds)) = true /\
-  pair_codes (mkSched (hstep sym (sp (rounds sym max_rounds (lose_server 5))) (HDeadline Client)) 0 0) = (3, 2) /\
-  length (h_sout (sp (rounds sym max_rounds (lose_server 5)))) = length (h_sout (sp (lose_server 5))).
-Proof. exact (conj (proj1 lost_server_finished_no_convergence)
-                   (conj (proj2 lost_server_finished_no_convergence) lost_server_finished_server_silent)). Qed.
+(* any two of the ten datagrams lost together are repaired within two rounds *)
+Theorem C11_convergence_double_loss :
+  forallb (fun a => forallb (fun b => both_agree (rounds sym 2 (lose_two a b))) datagrams) datagrams = true.
+Proof. exact double_loss_recovers. Qed.
+
+(* the F19 witness as a regression: losing the server's Finished leaves (Handshaking, Connected), and one
+   round now repairs it *)
+Theorem C11_lost_server_finished_recovers :
+  pair_codes (lose_server 5) = (1, 2) /\ both_agree (round sym (lose_server 5)) = true.
+Proof. exact lost_server_finished_recovers. Qed.
 
 (* REFUTED (finding F20, open): the fragment buffer appends in arrival order.  The Certificate split in
    three, delivered 0,2,1 (or with the middle fragment duplicated) assembles to garbage: the client
